@@ -218,9 +218,10 @@ def Layout.fixed : Layout := ⟨true, true, false⟩
 def Layout.repaired : Layout := ⟨true, true, true⟩
 
 /-- The store order of the code as it is now (ampl/mp 208050e: `stop_ = 0` before the `signal()` calls; 47cb42b:
-    `handler_ = 0; data_ = d; handler_ = h`).  `checks/c15.py` reads the order off the real code (hook names) on every
-    run, runs the model with the order it observed and reports a violation if that is not this one. -/
-def Layout.current : Layout := Layout.fixed
+    `handler_ = 0; data_ = d; handler_ = h`; 27c8b2e: the destructor no longer stores `stop_ = 1`).
+    `checks/c15.py` reads the order off the real code (hook names) on every run, runs the model with the order it
+    observed and reports a violation if that is not this one; `C15_gen_*` prove it against the clang AST. -/
+def Layout.current : Layout := Layout.repaired
 
 inductive Macro
   | ctor | reg (h d : Nat) | work | dtor
